@@ -6,9 +6,9 @@
 (*   outs = << [cfg, isa, out |-> [fault, shape, vals]] ... >>   extents of the returned static type,   *)
 (*                                                  its elements; fault # 0: the call died (signal)     *)
 (* EinsteinSemantics (Einsum.tla): the expected result is computed ONCE from the L1 operator and        *)
-(* compared with every configuration.  A wrong result of a call in one of the defect classes that the   *)
-(* L2 model EinsumDispatch exhibits is rejected with the class as tag (a listed known finding); any      *)
-(* other wrong result is an untagged rejection (a violation).                                           *)
+(* compared with every configuration.  Two documented deviations of outer() with a Tensor<T,1> operand   *)
+(* are rejected with a tag (listed known findings D29, D30); any other wrong result is an untagged        *)
+(* rejection (a violation).                                                                              *)
 EXTENDS EinsumDispatch
 VARIABLE l
 
@@ -32,23 +32,19 @@ JudgeEinsum(ev) ==
     LET x == ev.in
         cx == IsCx(x.T)
         exp == Denotes(x, cx)
-        route == IF PairForm(x) THEN RouteOf(x.form, x.la, x.lb) ELSE x.form
     IN /\ FormOK(x)              \* domain of the operator: an event outside it is a harness error (the trace is then not consumed)
        /\ \A o \in 1..Len(ev.outs) :
             LET r == ev.outs[o].out
                 ok == r.fault = 0 /\ r.shape = exp.shape /\ r.vals = exp.vals
-                \* named deviations (reported findings C03-F1, C03-F2): the pattern / extents / vector setting lie in a defect class of EinsumDispatch
-                dc == IF PairForm(x) THEN DefectClass(route, x.T, ev.outs[o].isa, x.la, x.lb, x.sb) ELSE ""
-                \* named deviation (C03-F3): outer(a,b) with a Tensor<T,1> operand returns the right elements without the extent-1 axis
+                \* named deviation (D29): outer(a,b) with a Tensor<T,1> operand returns the right elements without the extent-1 axis
                 squeezed == /\ x.form = "outer" /\ (x.sa = <<1>> \/ x.sb = <<1>>)
                             /\ r.fault = 0 /\ r.vals = exp.vals /\ r.shape = (IF x.sb = <<1>> THEN x.sa ELSE x.sb)
-                \* named deviation (C03-F4): the same overloads compute  a * b.toscalar()  as an expression; for a complex element type
+                \* named deviation (D30): the same overloads compute  a * b.toscalar()  as an expression; for a complex element type
                 \* the library evaluates scalar*tensor to zero (the complex-expression defect of C02), so the result is all zeros
                 unitzero == /\ x.form = "outer" /\ (x.sa = <<1>> \/ x.sb = <<1>>) /\ cx
                             /\ r.fault = 0 /\ r.shape = (IF x.sb = <<1>> THEN x.sa ELSE x.sb)
                             /\ \A q \in DOMAIN r.vals : r.vals[q] = Zero(cx)
             IN IF ok THEN TRUE
-               ELSE IF dc # "" THEN RejectTag(l, ev.case, ev.outs[o].cfg, dc)
                ELSE IF squeezed THEN RejectTag(l, ev.case, ev.outs[o].cfg, "outer_unit_squeezed")
                ELSE IF unitzero THEN RejectTag(l, ev.case, ev.outs[o].cfg, "outer_unit_complex_zero")
                ELSE Reject(l, ev.case, ev.outs[o].cfg)
